@@ -37,6 +37,8 @@ CHECKS = {
    text="The specification behaviour is the expected result for every similarity map: T-class operator rows, containment rows and point membership are re-executed with atoms constructed at other scales, places and orientations (polygon float / Fraction, quadratic), and every assertion must hold as at scale 1; Fraction atoms under rational maps must be exact.", ref="6/C12"),
  "C13": dict(tech="TLC-checked exact moment algebra (Plane) + exact comparison of every control point and moment under int/Fraction realisations",
    text="Under integer / Fraction realisations (denominators up to 1e4, rational rotation, move/scale programs) every control point of every operator result must equal the exact rational image of its grid point and be int/Fraction typed; moments must be the exact rationals.", ref="6/C13"),
+ "C14": dict(tech="TLC (ThmXings, ThmParity: crossing parameters and parity on all region pairs) + comparison of intersection() with the TLC-exported crossing parameters",
+   text="For every T-class pair of regions whose boundaries cross, TLC exports for each crossing the loop, edge and rational parameter on both boundaries (parametrisation is invariant under the realisations); intersection() of every curve pair must report exactly these tuples (exact for rational polygons), satisfy the range and A(u)=B(v) constraints, swap symmetry, the flag filters and A & B; crossings at vertices after splitting; (None, None) exactly for identical segments.", ref="6/C14"),
  "C19": dict(tech="TLC heap model (MakeRegion) + direct constructors in permuted orders against operator-built objects and the specification record",
    text="For every region with >= 2 boundary curves the direct ConnectedShape/DisjointShape constructions in permuted orders (with Empty entries) are compared with the specification record, with the operator-built object (== both ways), with complements; collapse rules (single member copy, empty list).", ref="6/C19"),
 }
